@@ -1,8 +1,431 @@
-//! Implementation side of driver op `parse` (see /verif/CONTRIBUTING.md).
+//! Implementation side of driver op `parse` (property C15, see /verif/CONTRIBUTING.md).
+//!
+//! `parse src <hexsource>`  : real `Lexer` + real `Parser` ->
+//!        `tokens=<tokens> ast=<tree>` | `tokens=<tokens> err=<s>:<e>;<expected,..>;<actual>`
+//!        | `tokens=<tokens> fault=<kind>` | `lexerr=<Kind>`
+//! `parse toks <tokens>`    : the given token list is rebuilt (`Token { span, kind }`) and handed to the
+//!        real `Parser` -> `ast=..` | `err=..` | `fault=..`
+//!
+//! Token notation: `E` | `S<Name>` | `O<hex>` | `I<hex>` | `N<hexdigits>_<exp>` | `T<hex>` | `B<hex>`, each
+//! followed by `:<start>:<end>`; tokens separated by `,` (`-` = empty list).
+//! Tree notation: `Label@start:end(child,child,...)`, mirrored by `RsjModel/Ast.lean`.
 #![allow(unused_imports, dead_code)]
 use crate::util::*;
+use rsjsonnet_lang::arena::Arena;
+use rsjsonnet_lang::ast;
+use rsjsonnet_lang::interner::StrInterner;
+use rsjsonnet_lang::lexer::Lexer;
+use rsjsonnet_lang::parser::{ActualToken, ExpectedToken, ParseError, Parser};
+use rsjsonnet_lang::span::{SpanContextId, SpanId, SpanManager};
+use rsjsonnet_lang::token::{Number, STokenKind, Token, TokenKind};
+
+const STOKS: &[STokenKind] = &[
+    STokenKind::Assert,
+    STokenKind::Else,
+    STokenKind::Error,
+    STokenKind::False,
+    STokenKind::For,
+    STokenKind::Function,
+    STokenKind::If,
+    STokenKind::Import,
+    STokenKind::Importstr,
+    STokenKind::Importbin,
+    STokenKind::In,
+    STokenKind::Local,
+    STokenKind::Null,
+    STokenKind::Tailstrict,
+    STokenKind::Then,
+    STokenKind::Self_,
+    STokenKind::Super,
+    STokenKind::True,
+    STokenKind::Exclam,
+    STokenKind::ExclamEq,
+    STokenKind::Dollar,
+    STokenKind::Percent,
+    STokenKind::Amp,
+    STokenKind::AmpAmp,
+    STokenKind::LeftParen,
+    STokenKind::RightParen,
+    STokenKind::Asterisk,
+    STokenKind::Plus,
+    STokenKind::PlusColon,
+    STokenKind::PlusColonColon,
+    STokenKind::PlusColonColonColon,
+    STokenKind::Comma,
+    STokenKind::Minus,
+    STokenKind::Dot,
+    STokenKind::Slash,
+    STokenKind::Colon,
+    STokenKind::ColonColon,
+    STokenKind::ColonColonColon,
+    STokenKind::Semicolon,
+    STokenKind::Lt,
+    STokenKind::LtLt,
+    STokenKind::LtEq,
+    STokenKind::Eq,
+    STokenKind::EqEq,
+    STokenKind::Gt,
+    STokenKind::GtEq,
+    STokenKind::GtGt,
+    STokenKind::LeftBracket,
+    STokenKind::RightBracket,
+    STokenKind::Hat,
+    STokenKind::LeftBrace,
+    STokenKind::Pipe,
+    STokenKind::PipePipe,
+    STokenKind::RightBrace,
+    STokenKind::Tilde,
+];
+
+fn stok_name(k: STokenKind) -> String {
+    format!("{:?}", k)
+}
+
+fn stok_of_name(s: &str) -> Option<STokenKind> {
+    STOKS.iter().copied().find(|k| stok_name(*k) == s)
+}
+
+struct Ser<'m> {
+    mgr: &'m SpanManager,
+}
+
+fn node(label: String, kids: Vec<String>) -> String {
+    if kids.is_empty() {
+        label
+    } else {
+        format!("{}({})", label, kids.join(","))
+    }
+}
+
+impl Ser<'_> {
+    fn span(&self, id: SpanId) -> String {
+        let (_, s, e) = self.mgr.get_span(id);
+        format!("@{}:{}", s, e)
+    }
+
+    fn ident(&self, tag: &str, id: &ast::Ident<'_>) -> String {
+        format!("{}.{}{}", tag, hex_enc(id.value.value().as_bytes()), self.span(id.span))
+    }
+
+    fn sp_node(&self, id: SpanId) -> String {
+        format!("Sp{}", self.span(id))
+    }
+
+    fn opt_expr(&self, e: Option<&ast::Expr<'_, '_>>) -> String {
+        match e {
+            None => "None".into(),
+            Some(e) => self.expr(e),
+        }
+    }
+
+    fn expr(&self, e: &ast::Expr<'_, '_>) -> String {
+        use ast::ExprKind as K;
+        let sp = self.span(e.span);
+        match e.kind {
+            K::Null => format!("Null{}", sp),
+            K::Bool(b) => format!("{}{}", if b { "True" } else { "False" }, sp),
+            K::SelfObj => format!("Self{}", sp),
+            K::Dollar => format!("Dollar{}", sp),
+            K::String(s) => format!("Str.{}{}", hex_enc(s.as_bytes()), sp),
+            K::TextBlock(s) => format!("Tb.{}{}", hex_enc(s.as_bytes()), sp),
+            K::Number(ref n) => format!("Num.{}{}", number_payload(n), sp),
+            K::Paren(inner) => node(format!("Paren{}", sp), vec![self.expr(inner)]),
+            K::Object(ref o) => node(format!("Object{}", sp), vec![self.obj_inside(o)]),
+            K::Array(items) => node(format!("Array{}", sp), items.iter().map(|i| self.expr(i)).collect()),
+            K::ArrayComp(item, spec) => {
+                let mut kids = vec![self.expr(item)];
+                kids.extend(spec.iter().map(|p| self.comp_spec(p)));
+                node(format!("ArrayComp{}", sp), kids)
+            }
+            K::Field(lhs, ref name) => node(format!("Field{}", sp), vec![self.expr(lhs), self.ident("Id", name)]),
+            K::Index(lhs, idx) => node(format!("Index{}", sp), vec![self.expr(lhs), self.expr(idx)]),
+            K::Slice(lhs, a, b, c) => node(
+                format!("Slice{}", sp),
+                vec![self.expr(lhs), self.opt_expr(a), self.opt_expr(b), self.opt_expr(c)],
+            ),
+            K::SuperField(ssp, ref name) => {
+                node(format!("SuperField{}", sp), vec![self.sp_node(ssp), self.ident("Id", name)])
+            }
+            K::SuperIndex(ssp, idx) => node(format!("SuperIndex{}", sp), vec![self.sp_node(ssp), self.expr(idx)]),
+            K::Call(f, args, ts) => {
+                let mut kids = vec![self.expr(f)];
+                kids.extend(args.iter().map(|a| self.arg(a)));
+                node(format!("{}{}", if ts { "CallTs" } else { "Call" }, sp), kids)
+            }
+            K::Ident(ref id) => format!("Ident.{}{}", hex_enc(id.value.value().as_bytes()), sp),
+            K::Local(binds, body) => node(
+                format!("Local{}", sp),
+                vec![node("L".into(), binds.iter().map(|b| self.bind(b)).collect()), self.expr(body)],
+            ),
+            K::If(c, t, e2) => node(format!("If{}", sp), vec![self.expr(c), self.expr(t), self.opt_expr(e2)]),
+            K::Binary(l, op, r) => node(format!("Bin.{:?}{}", op, sp), vec![self.expr(l), self.expr(r)]),
+            K::Unary(op, x) => node(format!("Un.{:?}{}", op, sp), vec![self.expr(x)]),
+            K::ObjExt(lhs, ref o, osp) => {
+                node(format!("ObjExt{}", sp), vec![self.expr(lhs), self.obj_inside(o), self.sp_node(osp)])
+            }
+            K::Func(params, body) => node(
+                format!("Func{}", sp),
+                vec![node("L".into(), params.iter().map(|p| self.param(p)).collect()), self.expr(body)],
+            ),
+            K::Assert(a, body) => node(format!("Assert{}", sp), vec![self.assert(a), self.expr(body)]),
+            K::Import(x) => node(format!("Import{}", sp), vec![self.expr(x)]),
+            K::ImportStr(x) => node(format!("ImportStr{}", sp), vec![self.expr(x)]),
+            K::ImportBin(x) => node(format!("ImportBin{}", sp), vec![self.expr(x)]),
+            K::Error(x) => node(format!("Error{}", sp), vec![self.expr(x)]),
+            K::InSuper(x, ssp) => node(format!("InSuper{}", sp), vec![self.expr(x), self.sp_node(ssp)]),
+        }
+    }
+
+    fn param(&self, p: &ast::Param<'_, '_>) -> String {
+        node("Param".into(), vec![self.ident("Id", &p.name), self.opt_expr(p.default_value.as_ref())])
+    }
+
+    fn arg(&self, a: &ast::Arg<'_, '_>) -> String {
+        match a {
+            ast::Arg::Positional(e) => node("Pos".into(), vec![self.expr(e)]),
+            ast::Arg::Named(n, e) => node("Named".into(), vec![self.ident("Id", n), self.expr(e)]),
+        }
+    }
+
+    fn bind(&self, b: &ast::Bind<'_, '_>) -> String {
+        let params = match b.params {
+            None => "None".to_string(),
+            Some((ps, psp)) => {
+                node(format!("Params{}", self.span(psp)), ps.iter().map(|p| self.param(p)).collect())
+            }
+        };
+        node("Bind".into(), vec![self.ident("Id", &b.name), params, self.expr(&b.value)])
+    }
+
+    fn assert(&self, a: &ast::Assert<'_, '_>) -> String {
+        node(format!("Asrt{}", self.span(a.span)), vec![self.expr(&a.cond), self.opt_expr(a.msg.as_ref())])
+    }
+
+    fn comp_spec(&self, p: &ast::CompSpecPart<'_, '_>) -> String {
+        match p {
+            ast::CompSpecPart::For(f) => node("For".into(), vec![self.ident("Id", &f.var), self.expr(&f.inner)]),
+            ast::CompSpecPart::If(i) => node("IfSpec".into(), vec![self.expr(&i.cond)]),
+        }
+    }
+
+    fn obj_inside(&self, o: &ast::ObjInside<'_, '_>) -> String {
+        match *o {
+            ast::ObjInside::Members(ms) => node("Members".into(), ms.iter().map(|m| self.member(m)).collect()),
+            ast::ObjInside::Comp { locals1, name, plus, body, locals2, comp_spec } => node(
+                if plus { "CompPlus".into() } else { "Comp".into() },
+                vec![
+                    node("L".into(), locals1.iter().map(|l| self.bind(&l.bind)).collect()),
+                    self.expr(name),
+                    self.expr(body),
+                    node("L".into(), locals2.iter().map(|l| self.bind(&l.bind)).collect()),
+                    node("L".into(), comp_spec.iter().map(|p| self.comp_spec(p)).collect()),
+                ],
+            ),
+        }
+    }
+
+    fn member(&self, m: &ast::Member<'_, '_>) -> String {
+        match m {
+            ast::Member::Local(l) => self.bind(&l.bind),
+            ast::Member::Assert(a) => self.assert(a),
+            ast::Member::Field(f) => self.field(f),
+        }
+    }
+
+    fn vis(v: ast::Visibility) -> &'static str {
+        match v {
+            ast::Visibility::Default => "d",
+            ast::Visibility::Hidden => "h",
+            ast::Visibility::ForceVisible => "v",
+        }
+    }
+
+    fn field(&self, f: &ast::Field<'_, '_>) -> String {
+        match f {
+            ast::Field::Value(name, plus, vis, e) => node(
+                format!("FV.{}{}", Self::vis(*vis), if *plus { "p" } else { "n" }),
+                vec![self.field_name(name), self.expr(e)],
+            ),
+            ast::Field::Func(name, params, psp, vis, e) => node(
+                format!("FF.{}", Self::vis(*vis)),
+                vec![
+                    self.field_name(name),
+                    node(format!("Params{}", self.span(*psp)), params.iter().map(|p| self.param(p)).collect()),
+                    self.expr(e),
+                ],
+            ),
+        }
+    }
+
+    fn field_name(&self, n: &ast::FieldName<'_, '_>) -> String {
+        match n {
+            ast::FieldName::Ident(id) => self.ident("FnId", id),
+            ast::FieldName::String(s, sp) => format!("FnStr.{}{}", hex_enc(s.value().as_bytes()), self.span(*sp)),
+            ast::FieldName::Expr(e, sp) => node(format!("FnExpr{}", self.span(*sp)), vec![self.expr(e)]),
+        }
+    }
+}
+
+fn number_payload(n: &Number<'_>) -> String {
+    format!("{}_{}", hex_enc(n.digits.as_bytes()), n.exp)
+}
+
+fn show_token(mgr: &SpanManager, t: &Token<'_, '_>) -> String {
+    let (_, s, e) = mgr.get_span(t.span);
+    let k = match t.kind {
+        TokenKind::EndOfFile => "E".to_string(),
+        TokenKind::Whitespace => "W".to_string(),
+        TokenKind::Comment => "C".to_string(),
+        TokenKind::Simple(k) => format!("S{}", stok_name(k)),
+        TokenKind::OtherOp(op) => format!("O{}", hex_enc(op.as_bytes())),
+        TokenKind::Ident(i) => format!("I{}", hex_enc(i.value().as_bytes())),
+        TokenKind::Number(ref n) => format!("N{}", number_payload(n)),
+        TokenKind::String(s) => format!("T{}", hex_enc(s.as_bytes())),
+        TokenKind::TextBlock(s) => format!("B{}", hex_enc(s.as_bytes())),
+    };
+    format!("{}:{}:{}", k, s, e)
+}
+
+fn show_expected(e: &ExpectedToken) -> String {
+    match e {
+        ExpectedToken::EndOfFile => "Eof".into(),
+        ExpectedToken::Simple(k) => format!("S{}", stok_name(*k)),
+        ExpectedToken::Ident => "Ident".into(),
+        ExpectedToken::Number => "Number".into(),
+        ExpectedToken::String => "String".into(),
+        ExpectedToken::TextBlock => "TextBlock".into(),
+        ExpectedToken::Expr => "Expr".into(),
+        ExpectedToken::BinaryOp => "BinaryOp".into(),
+    }
+}
+
+fn show_actual(a: &ActualToken) -> String {
+    match a {
+        ActualToken::EndOfFile => "Eof".into(),
+        ActualToken::Simple(k) => format!("S{}", stok_name(*k)),
+        ActualToken::OtherOp(s) => format!("O{}", hex_enc(s.as_bytes())),
+        ActualToken::Ident(s) => format!("I{}", hex_enc(s.as_bytes())),
+        ActualToken::Number => "Number".into(),
+        ActualToken::String => "String".into(),
+        ActualToken::TextBlock => "TextBlock".into(),
+    }
+}
+
+fn show_result(mgr: &SpanManager, r: &Result<ast::Expr<'_, '_>, ParseError>) -> String {
+    match r {
+        Ok(e) => {
+            let s = Ser { mgr };
+            format!("ast={}", s.expr(e))
+        }
+        Err(ParseError::Expected { span, expected, instead }) => {
+            let (_, s, e) = mgr.get_span(*span);
+            let ex: Vec<String> = expected.iter().map(show_expected).collect();
+            format!(
+                "err={}:{};{};{}",
+                s,
+                e,
+                if ex.is_empty() { "-".to_string() } else { ex.join(",") },
+                show_actual(instead)
+            )
+        }
+    }
+}
+
+fn fault_of_panic(msg: &str) -> String {
+    let k = if msg.contains("passed an empty token slice") {
+        "emptyTokens".to_string()
+    } else if msg.contains("rem_tokens.as_slice().is_empty()") {
+        "eofNotLast".to_string()
+    } else if msg.contains("parser/mod.rs") && msg.contains("Option::unwrap()") {
+        "noNextToken".to_string()
+    } else if msg.contains("parser/expr.rs") {
+        "unreachable".to_string()
+    } else {
+        format!("other:{}", hex_enc(msg.as_bytes()))
+    };
+    format!("fault={}", k)
+}
+
+/// Run the real parser over `tokens`; panics become `fault=..`.
+fn run_parser<'p>(
+    arena: &'p Arena,
+    interner: &StrInterner<'p>,
+    mgr: &mut SpanManager,
+    tokens: Vec<Token<'p, 'p>>,
+) -> String {
+    let r = std::panic::catch_unwind(std::panic::AssertUnwindSafe(|| {
+        let parser = Parser::new(arena, arena, interner, mgr, tokens);
+        parser.parse_root_expr()
+    }));
+    match r {
+        Ok(res) => show_result(mgr, &res),
+        Err(_) => fault_of_panic(&crate::take_panic_msg()),
+    }
+}
+
+fn parse_src(src: &[u8]) -> String {
+    let arena = Arena::new();
+    let interner = StrInterner::new();
+    let mut mgr = SpanManager::new();
+    let (ctx, _) = mgr.insert_source_context(src.len());
+    let lexer = Lexer::new(&arena, &arena, &interner, &mut mgr, ctx, src);
+    let tokens = match lexer.lex_to_eof(false) {
+        Ok(t) => t,
+        Err(e) => return format!("lexerr={}", variant_name(&e)),
+    };
+    let toks: Vec<String> = tokens.iter().map(|t| show_token(&mgr, t)).collect();
+    let res = run_parser(&arena, &interner, &mut mgr, tokens);
+    format!("tokens={} {}", if toks.is_empty() { "-".to_string() } else { toks.join(",") }, res)
+}
+
+fn parse_toks(spec: &str) -> Option<String> {
+    let arena = Arena::new();
+    let interner = StrInterner::new();
+    let mut mgr = SpanManager::new();
+    let mut raw: Vec<(String, usize, usize)> = Vec::new();
+    if spec != "-" {
+        for t in spec.split(',') {
+            let p: Vec<&str> = t.split(':').collect();
+            if p.len() != 3 || p[0].is_empty() {
+                return None;
+            }
+            raw.push((p[0].to_string(), p[1].parse().ok()?, p[2].parse().ok()?));
+        }
+    }
+    let len = raw.iter().map(|r| r.1.max(r.2)).max().unwrap_or(0);
+    let (ctx, _) = mgr.insert_source_context(len);
+    let mut tokens: Vec<Token<'_, '_>> = Vec::new();
+    for (k, s, e) in raw.iter() {
+        let body = &k[1..];
+        let kind = match k.as_bytes()[0] {
+            b'E' if body.is_empty() => TokenKind::EndOfFile,
+            b'S' => TokenKind::Simple(stok_of_name(body)?),
+            b'O' => TokenKind::OtherOp(arena.alloc_str(std::str::from_utf8(&hex_dec(body)?).ok()?)),
+            b'I' => TokenKind::Ident(interner.intern(&arena, std::str::from_utf8(&hex_dec(body)?).ok()?)),
+            b'N' => {
+                let (d, x) = body.split_once('_')?;
+                TokenKind::Number(Number {
+                    digits: arena.alloc_str(std::str::from_utf8(&hex_dec(d)?).ok()?),
+                    exp: x.parse().ok()?,
+                })
+            }
+            b'T' => TokenKind::String(arena.alloc_str(std::str::from_utf8(&hex_dec(body)?).ok()?)),
+            b'B' => TokenKind::TextBlock(arena.alloc_str(std::str::from_utf8(&hex_dec(body)?).ok()?)),
+            _ => return None,
+        };
+        if s > e {
+            return Some("bad-token-spans".into());
+        }
+        tokens.push(Token { span: mgr.intern_span(ctx, *s, *e), kind });
+    }
+    Some(run_parser(&arena, &interner, &mut mgr, tokens))
+}
 
 /// `parse <args...>`: one canonical answer line, or `None` for a malformed request.
-pub fn handle(_args: &[&str]) -> Option<String> {
-    None
+pub fn handle(args: &[&str]) -> Option<String> {
+    match args {
+        ["src", hex] => Some(parse_src(&hex_dec(hex)?)),
+        ["toks", spec] => parse_toks(spec),
+        _ => None,
+    }
 }
